@@ -97,6 +97,7 @@ def check(ctx):
     check_stats_through_tree(ctx)
     check_tree_and_parents_agree(ctx)
     check_lookup_superset_tolerated(ctx)
+    check_tree_queried_with_own_nodes(ctx)
     # the level that was dropped is filled in from the finer assignment by
     # the parent table of *that* level (shared with C01)
     from .C01 import check_backfill
@@ -652,3 +653,62 @@ def check_lookup_superset_tolerated(ctx):
            'tree is rejected, which refuses every run that drops a level '
            'or flattens while its per-level table is written for the full '
            'taxonomy')
+
+
+def check_tree_queried_with_own_nodes(
+        ctx, rule='R-PROV/tree-asked-about-its-own-nodes'):
+    """the marker table may have been written for the full taxonomy while
+    the run works on a reduced tree; its extra groups are tolerated
+    (R-GUARD/lookup-superset-tolerated).  That only holds while the tree is
+    never asked about a node named by the *table*: in the marker
+    reconciliation code every (level, node) handed to `children` /
+    `parents` of the run's tree derives from the tree itself (all_parents,
+    hierarchy, children), not from a key of the marker table -- the tree
+    raises for a level it does not have."""
+    from ..core.slicing import backward_slice
+    db = ctx.db
+    n = 0
+    for fi in db.iter_functions():
+        if fi.module.short not in ('type_assignment.marker_cache_v2',
+                                   'type_assignment.utils'):
+            continue
+        table_params = [p for p in fi.params if 'marker' in p
+                        and 'lookup' in p]
+        if not table_params or 'taxonomy_tree' not in fi.params:
+            continue
+        cfg = cfg_of(fi)
+        rd = rd_of(fi)
+        for node in cfg.nodes:
+            if node.id not in rd.live:
+                continue
+            for c in cfg.calls_in(node):
+                f = c.func
+                if not (isinstance(f, ast.Attribute) and f.attr in (
+                        'children', 'parents', 'nodes_at_level',
+                        'leaves_to_compare')
+                        and isinstance(f.value, ast.Name)
+                        and f.value.id == 'taxonomy_tree'):
+                    continue
+                args = list(c.args) + [k.value for k in c.keywords]
+                if not args:
+                    continue
+                n += 1
+                from_table = set()
+                for a in args:
+                    sl = backward_slice(fi, a, node.id)
+                    from_table |= set(sl.params) & set(table_params)
+                    # a membership test of the key in the tree's own
+                    # levels makes the question safe
+                ok = not from_table
+                ctx.touch(fi)
+                ctx.ob(rule, f'{fi.qual}:{f.attr}#{n - 1}', fi.loc(c), ok,
+                       'the tree is asked about nodes it listed itself'
+                       if ok else
+                       f'`{unparse(c)[:60]}` asks the run\'s tree about a '
+                       f'node taken from {sorted(from_table)}: a table '
+                       'written for the full taxonomy names levels the '
+                       'reduced tree does not have, and the run is '
+                       'rejected although the reduced taxonomy maps fine')
+    if n < 2:
+        raise AnalysisError(f'only {n} tree queries found in the marker '
+                            'reconciliation code')
